@@ -235,9 +235,42 @@ Next == \/ row = 0 /\ row' \in {-c : c \in 1..Chunks}
         \/ row < 0 /\ row' \in {i \in 1..N : i % Chunks = (-row) % Chunks}
 Spec == Init /\ [][Next]_row
 
+\* ---------------------------------------------------------------- iterators whose static type is a UNION of iterator types
+\* A function returns either `data~' (ints) or `data~ @ tof' (floats); the reducer of `$+' can only be chosen when the
+\* iterator value is at hand.  tof(x) = x + 0.5 (looked up in a table), logging 100 + x.
+IterIF == WMulti(<<WFn(<<>>, WTup(<<WBool, WInt>>)), WFn(<<>>, WTup(<<WBool, WFloat>>))>>)
+Halves == Hide(WArr(WFloat), ArrE(<<F(1), F(3), F(5), F(7)>>))        \* 0.5 1.5 2.5 3.5
+UniPrelude(xs) == <<
+  FnDecl("tof", <<P("x", WInt)>>, WFloat, <<LogPlus(100, V("x")), Ret(At(Halves, V("x")))>>),
+  Set("data", Hide(WArr(WInt), ArrE([i \in 1..Len(xs) |-> I(xs[i])]))),
+  FnDecl("mkit", <<P("b", WBool)>>, IterIF, <<If1(V("b"), Ret(MapE(IterE(V("data")), V("tof")))), Ret(IterE(V("data")))>>)>>
+UniCons == {"sum", "collect", "for", "sum-direct"}
+UniProg(xs, b, c) ==
+  UniPrelude(xs) \o
+  (CASE c = "sum" -> <<Set("it", CallE(V("mkit"), <<Hide(WBool, B(b))>>)), RedE("$+", "dyn", V("it"))>>
+     [] c = "sum-direct" -> <<RedE("$+", "dyn", CallE(V("mkit"), <<Hide(WBool, B(b))>>))>>
+     [] c = "collect" -> <<Set("it", CallE(V("mkit"), <<Hide(WBool, B(b))>>)), CollectE(V("it"))>>
+     [] c = "for" -> <<Set("it", CallE(V("mkit"), <<Hide(WBool, B(b))>>)), For("e", V("it"), Block(<<Mark(300)>>)), I(0)>>)
+UniSeq == SetToSeq({<<xs, b, c>> : xs \in {<<1, 2, 3>>, <<0, 1>>, <<3>>, <<2, 2>>}, b \in BOOLEAN, c \in UniCons})
+UniOut(i) == Outcome(Run(UniProg(UniSeq[i][1], UniSeq[i][2], UniSeq[i][3]), Fuel))
+RECURSIVE SumSeq(_)
+SumSeq(xs) == IF xs = <<>> THEN 0 ELSE Head(xs) + SumSeq(Tail(xs))
+UniLaw == \A i \in 1..Len(UniSeq) :
+  LET xs == UniSeq[i][1]  b == UniSeq[i][2]  c == UniSeq[i][3]  o == UniOut(i)
+      applied == IF b THEN [j \in 1..Len(xs) |-> 100 + xs[j]] ELSE <<>>
+      want == CASE c \in {"sum", "sum-direct"} -> IF b THEN FloatV(2 * SumSeq(xs) + Len(xs)) ELSE IntV(SumSeq(xs))
+                [] c = "collect" -> ArrV(TAny, [j \in 1..Len(xs) |-> IF b THEN FloatV(2 * xs[j] + 1) ELSE IntV(xs[j])])
+                [] c = "for" -> IntV(0) IN
+  \/ (o.status = "value" /\ ValEq(o.v, want)
+       /\ (c # "for" => o.log = applied) /\ (c = "for" => Len(o.log) = Len(applied) + Len(xs)))
+  \/ (PrintT(<<"UNILAW", UniSeq[i], o>>) /\ FALSE)
+
 Emit ==
   /\ TLCGet("stats").distinct > 0
+  /\ UniLaw
   /\ ndJsonSerialize(IOEnv.VERIF_OUT \o "/c11_cases.ndjson",
-        [i \in 1..N |-> [id |-> "c11-" \o ToString(i), suite |-> "c11", prog |-> Prog(CaseSeq[i]), exp |-> Out(i)]])
+        [i \in 1..N |-> [id |-> "c11-" \o ToString(i), suite |-> "c11", prog |-> Prog(CaseSeq[i]), exp |-> Out(i)]]
+        \o [i \in 1..Len(UniSeq) |-> [id |-> "c11-union-iter-" \o ToString(i), suite |-> "c11",
+                                      prog |-> UniProg(UniSeq[i][1], UniSeq[i][2], UniSeq[i][3]), exp |-> UniOut(i)]])
   /\ PrintT(<<"CASES", N, Len(CaseSeq0)>>)
 =============================================================================
